@@ -376,6 +376,7 @@ func VerifC14_ProcessorReplies() {
 			verifReach("undecodable-begin")
 			continue
 		}
+		verifAssert(err == nil, "Process reports no error once the reply (or error reply) has been written")
 		verifCheckReply(reply, fctx, kind, outcome, appType, arg, h, calls)
 	}
 	verifReach("end")
@@ -418,14 +419,15 @@ func VerifC14_SimpleServerLoop() {
 	if kind == verifReqOneway && outcome == verifOutValue {
 		want = 1
 	}
-	if kind == verifReqTruncatedArgs || kind == verifReqWrongTypeArgs {
-		// a request that cannot be decoded may cost the connection; if the loop
-		// goes on, the later request must be answered correctly
-		if len(replies) < want {
-			verifReach("connection-dropped")
-			return
-		}
+	if kind == verifReqTruncatedArgs && len(replies) < want {
+		// a frame that ends inside its argument struct makes the framed reader run on
+		// into the next frame: the statement only protects later requests from unknown
+		// methods and handler failures, so this is counted, not asserted
+		verifReach("truncated-frame-consumed-next")
+		return
 	}
+	// a complete frame whose arguments have the wrong type is answered with
+	// PROTOCOL_ERROR and the connection keeps serving
 	verifAssert(len(replies) == want, "one reply per two-way request")
 	last := replies[len(replies)-1]
 	verifAssert(last.opid == verifOpID(f2), "the later request is answered with its own op id")
